@@ -20,7 +20,7 @@ RULE = ('cases are histories of create / call-with-arguments / drop / garbage-co
 ASSUMPTIONS = [
     'only sequential interleavings are explored; real threads are not (the harness does not own the GIL schedule and the cache is a C lru_cache with its own lock)',
     'CPython reference counting: an object without referrers is freed at once, gc.collect() additionally clears cycles',
-    'the uncached value is method.__wrapped__(obj, *args); equality is deep (arrays, data frames, counters, graphs, Collective attributes)',
+    'the uncached value is method.__wrapped__(obj, *args); equality is deep (arrays, data frames, counters, graphs, Collective attributes), exact for integers and to rtol 1e-12 for floats (a recomputation may differ in the last bit)',
 ]
 
 
@@ -36,9 +36,12 @@ def deep_equal(a, b):
     if isinstance(a, np.ndarray):
         if a.dtype.names:
             return a.shape == b.shape and a.dtype == b.dtype and a.tobytes() == b.tobytes()
-        return a.shape == b.shape and bool(np.array_equal(a, b, equal_nan=a.dtype.kind in 'fc'))
+        if a.dtype.kind in 'fc':
+            # a recomputation may differ in the last bits (numpy's SIMD reductions depend on memory alignment)
+            return a.shape == b.shape and bool(np.allclose(a, b, rtol=1e-12, atol=0, equal_nan=True))
+        return a.shape == b.shape and bool(np.array_equal(a, b))
     if isinstance(a, pd.DataFrame):
-        return a.shape == b.shape and list(a.columns) == list(b.columns) and list(a.index) == list(b.index) and bool(np.array_equal(a.to_numpy(dtype=float), b.to_numpy(dtype=float), equal_nan=True))
+        return a.shape == b.shape and list(a.columns) == list(b.columns) and list(a.index) == list(b.index) and bool(np.allclose(a.to_numpy(dtype=float), b.to_numpy(dtype=float), rtol=1e-12, atol=0, equal_nan=True))
     if isinstance(a, (nx.Graph, nx.DiGraph)):
         return dict(a.nodes(data=True)) == dict(b.nodes(data=True)) and sorted(a.edges) == sorted(b.edges) and all(deep_equal(a.edges[e].get('e_act'), b.edges[e].get('e_act')) for e in a.edges)
     if isinstance(a, (tuple, list)):
@@ -46,7 +49,7 @@ def deep_equal(a, b):
     if isinstance(a, dict):
         return set(a) == set(b) and all(deep_equal(a[k], b[k]) for k in a)
     if isinstance(a, (float, np.floating)):
-        return (a == b) or (a != a and b != b)
+        return bool((a == b) or (a != a and b != b) or abs(a - b) <= 1e-12 * max(abs(a), abs(b)))
     if type(a).__name__ == 'Collective':
         return (a.n_solo_jumps == b.n_solo_jumps and a.n_coll_jumps == b.n_coll_jumps and a.max_steps == b.max_steps and a.max_dist == b.max_dist
                 and [tuple(map(tuple, x)) for x in a.coll_jumps] == [tuple(map(tuple, x)) for x in b.coll_jumps])
@@ -361,6 +364,12 @@ class RealMachine(LogMachine):
             raise Skip()
         if k == 'new':
             self._new(op['k'], op['kind'])
+        elif k == 'pair':
+            # two live objects that differ only in their settings / system, queried with the same method and arguments
+            h1 = self._new(op['k'], op['kind'])
+            h2 = self._new(op['k'] + 1, op['kind'])
+            for h in (h1, h2, h1):
+                self._call(h, op['m'], op['a'])
         elif k == 'burst':
             hs = [self._new(op['k'], 'TrajectoryMetrics') for _ in range(op['n'])]
             for h in hs:
@@ -422,6 +431,10 @@ class RealMachine(LogMachine):
     def r_drop_create(self, i, k, m, a):
         self.step({'op': 'drop-create', 'i': i, 'k': k, 'm': m, 'a': a})
 
+    @rule(k=st.integers(0, 8), kind=st.sampled_from(['JumpsShared', 'JumpsShared', 'Jumps', 'Transitions']), m=st.sampled_from([0, 1, 2, 3, 5, 5]), a=st.integers(0, 3))
+    def r_pair(self, k, kind, m, a):
+        self.step({'op': 'pair', 'k': k, 'kind': kind, 'm': m, 'a': a})
+
     @rule(k=st.integers(0, 5), n=st.sampled_from([3, 135]))
     def r_burst(self, k, n):
         self.step({'op': 'burst', 'k': k, 'n': n})
@@ -444,5 +457,5 @@ SUBS = [
         n={'quick': 25, 'thorough': 400}, shards={'quick': 8, 'thorough': 16}, steps={'quick': 40, 'thorough': 60}),
     Sub(name='analysis-objects', kind='machine', run=run_real, machine=lambda tier: RealMachine,
         rule='RuleBasedStateMachine on real Trajectory / Transitions / Jumps / TrajectoryMetrics / Collective objects built from 2-3 generated systems: every cached method with varying arguments vs method.__wrapped__, drop + gc (weakref must be dead), drop-then-create, bursts of 135 metrics objects',
-        n={'quick': 6, 'thorough': 100}, shards={'quick': 12, 'thorough': 16}, steps={'quick': 25, 'thorough': 40}),
+        n={'quick': 10, 'thorough': 120}, shards={'quick': 12, 'thorough': 16}, steps={'quick': 25, 'thorough': 40}),
 ]
